@@ -1870,7 +1870,7 @@ def gen(ctx, emit):
     ms_opcount_cases(cases, vm_emit)
     ms_opcount_cases(cases, vm_emit, rng, ctx.n(40, 1500))
     if not os.environ.get("C03_NO_SIGARR"):
-        signature_arrangements(cases, lambda op: emit(op, "vm:sigarr"), ctx.thorough, rng, ctx.n(60, 3000))
+        signature_arrangements(cases, lambda op: emit(op, "vm:sigarr"), ctx.thorough, rng, ctx.n(60, 2000))
     _emit_cases(cases, emit, ctx)
 
     def batch(n, f):
@@ -1897,7 +1897,7 @@ def gen(ctx, emit):
                 stack = stack + [sig_variant(rng, base.txinfo(), ki, prog, sv)[0]]
             cs.append(Case("eval", fl, (prog, stack), c, sv, tag="random-eval"))
 
-    batch(ctx.n(22000, 600000), random_evals)
+    batch(ctx.n(22000, 480000), random_evals)
     batch(ctx.n(6000, 100000), lambda k, cs: pipeline_scenarios(rng, k, cs))
     batch(ctx.n(1500, 40000), lambda k, cs: sig_scenarios(rng, k, cs))
     # anchored line coverage on a sample (every k-th case, all regression cases)
